@@ -331,3 +331,339 @@ def c12_r4(ctx: Ctx, rule):
                      "%s keeps (part of) its argument %s by reference: %s" % (short(q2), k, how),
                      "d.update(other): a bundle of `other` becomes a bundle of d as well; adding a record through d changes other")
     return res
+
+
+# ===================================================================================== C08
+def unified_helper(ctx: Ctx):
+    q = BUNDLE + "._unified_records"
+    if q not in ctx.p.functions:
+        # discovered: the ProvBundle method both unified() variants call
+        cands = set()
+        for u in (BUNDLE + ".unified", DOC + ".unified"):
+            cands |= {call_name(c) for c in calls_in(ctx.fn(u).node) if isinstance(c.func, ast.Attribute) and norm(c.func.value) == "self"}
+        cands = [ctx.p.lookup_method(BUNDLE, c) for c in cands if ctx.p.lookup_method(BUNDLE, c)]
+        cands = [c for c in cands if any(call_name(x) == "add_attributes" for x in calls_in(ctx.fn(c).node))]
+        if len(cands) != 1:
+            raise AnalysisError("cannot identify the record-merging helper of unified()")
+        q = cands[0]
+    return q
+
+
+@rule("C08", "C08.R1", "the merge happens on a fresh record, through the normaliser", 1,
+      decides="the source records are never the receiver of the merging add_attributes; conflicts surface as ProvException")
+def c08_r1(ctx: Ctx, rule):
+    res = RuleResult()
+    eff = get_effects(ctx)
+    q = unified_helper(ctx)
+    fi = ctx.fn(q)
+    merges = [c for c in calls_in(fi.node) if call_name(c) == "add_attributes" and isinstance(c.func, ast.Attribute)]
+    if not merges:
+        raise AnalysisError("%s: no merging add_attributes call" % short(q))
+    # receiver freshness is read off the effect summary: no CONTENT effect rooted at self may come from this helper
+    s = eff.sum[q]
+    bad = [e for e in s.effects if base_of(e[0]) == "self" and e[1] in ("CONTENT", "NS", "NS-RESOLVE", "LINK", "OTHER")]
+    for c in merges:
+        recv = resolve_local(fi.node, c.func.value)
+        res.ob("%s: merge receiver %s = %s; effects on the source: %s" % (short(q), norm(c.func.value), norm(recv)[:70], sorted({(e[0], e[1]) for e in bad}) or "none"))
+    for e in bad:
+        fq, node = s.sites[e]
+        res.fail(rule.id, "merge-touches-source::%s::%s" % (e[1], e[0].replace(HOP, ">")), ctx.loc(fq, node),
+                 "%s has a %s effect on the source (%s): %s" % (short(q), e[1], e[2], " -> ".join(eff.explain(q, e))),
+                 "after d.unified() a record of d carries the attributes of its namesakes, or d's bundle declares new prefixes")
+    # raw stores (bypassing the single-value guard) are C05.R1's business; here: the merge call is the normaliser
+    from .paths import find_normaliser
+
+    nq, _, _ = find_normaliser(ctx)
+    ok = nq.endswith(".add_attributes")
+    res.ob("merging goes through the normaliser %s: %s" % (short(nq), ok))
+    return res
+
+
+@rule("C08", "C08.R2", "only records of one kind are merged: the grouping key contains the record type", 1, family="F-PATH",
+      decides="an entity and an agent sharing an identifier both survive unification")
+def c08_r2(ctx: Ctx, rule):
+    res = RuleResult()
+    q = unified_helper(ctx)
+    fi = ctx.fn(q)
+    merges = [c for c in calls_in(fi.node) if call_name(c) == "add_attributes"]
+    ok = False
+    why = ""
+    # shape 1: groups are built under a key that includes get_type() / type()
+    for n in walk_function(fi.node):
+        if isinstance(n, ast.Subscript) and isinstance(n.slice, ast.Tuple):
+            if any(isinstance(x, ast.Call) and call_name(x) in ("get_type", "type") for x in ast.walk(n.slice)):
+                ok, why = True, "grouping key %s" % norm(n.slice)
+    # shape 2: the merge is guarded by a type comparison
+    for n in walk_function(fi.node):
+        if isinstance(n, ast.If) and any(call_name(c) == "add_attributes" for c in ast.walk(n) if isinstance(c, ast.Call)):
+            if "get_type" in norm(n.test) or "type(" in norm(n.test) or "isinstance" in norm(n.test):
+                ok, why = True, "guard %s" % norm(n.test)
+    # the groups being merged must be the ones built under that key: the loop that merges iterates the keyed container
+    if ok and why.startswith("grouping key"):
+        keyed = None
+        for n in walk_function(fi.node):
+            if isinstance(n, ast.Subscript) and isinstance(n.slice, ast.Tuple) and isinstance(n.value, ast.Name):
+                keyed = n.value.id
+        loops = [n for n in walk_function(fi.node) if isinstance(n, ast.For) and any(c in merges for c in ast.walk(n))]
+        outer = [l for l in loops if keyed and keyed in norm(l.iter)]
+        if not outer:
+            ok, why = False, "records are keyed by type in %s but the merging loop does not iterate it" % keyed
+    res.ob("%s merges only records of one kind: %s (%s)" % (short(q), ok, why))
+    if not ok:
+        res.fail(rule.id, "merge-across-kinds", ctx.loc(q, merges[0] if merges else fi.node),
+                 "%s merges every record sharing an identifier, whatever its kind%s" % (short(q), (": " + why) if why else ""),
+                 "entity(ex:x) + agent(ex:x): unified() returns one entity carrying the agent's attributes; the agent disappears")
+    return res
+
+
+@rule("C08", "C08.R4", "every bundle is carried over under its identifier; every unified record is emitted once, per merged record", 3, family="F-PATH",
+      decides="no bundle and no record kind is lost on the way into the unified document")
+def c08_r4(ctx: Ctx, rule):
+    res = RuleResult()
+    q = DOC + ".unified"
+    fi = ctx.fn(q)
+    g = get_cfg(ctx, q)
+    loops = [n for n in walk_function(fi.node) if isinstance(n, ast.For) and "bundles" in norm(n.iter)]
+    if not loops:
+        raise AnalysisError("ProvDocument.unified: no loop over the bundles")
+    for l in loops:
+        v = norm(l.target)
+        adds = [c for c in ast.walk(l) if isinstance(c, ast.Call) and call_name(c) in ("add_bundle",)]
+        uni = [c for c in ast.walk(l) if isinstance(c, ast.Call) and call_name(c) == "unified" and norm(c.func.value) == v]
+        ok = bool(adds) and bool(uni)
+        if ok:
+            ln = g.nodes_of(l)[0]
+            an = node_of(g, adds[0])
+            body_entry = [m for m, lab in ln.succ if lab == "iter"][0]
+            skip = body_entry is not an and g.exists_path(body_entry, ln, avoid=lambda n: n is an, labels_excluded=("exc", "raise"))
+            ok = not skip
+        filt = isinstance(l.iter, (ast.ListComp, ast.GeneratorExp)) or (isinstance(l.iter, ast.Call) and call_name(l.iter) == "filter")
+        res.ob("unified: every bundle is unified and added on every iteration: %s (filtered iteration: %s)" % (ok, filt))
+        if not ok or filt:
+            res.fail(rule.id, "bundle-dropped", ctx.loc(q, l), "a bundle can be skipped on its way into the unified document", "a bundle (e.g. an empty one) disappears from unified()")
+    # the emit loop of the helper de-duplicates per merged record object, not per identifier
+    hq = unified_helper(ctx)
+    hf = ctx.fn(hq)
+    emit = [c for c in calls_in(hf.node) if call_name(c) == "append"]
+    seen_sets = [c for c in calls_in(hf.node) if call_name(c) == "add" and isinstance(c.func.value, ast.Name)]
+    for c in seen_sets:
+        arg = norm(c.args[0]) if c.args else ""
+        by_identifier = "identifier" in arg
+        res.ob("%s: emitted-set is keyed by %s (per merged record: %s)" % (short(hq), arg, not by_identifier))
+        if by_identifier:
+            res.fail(rule.id, "dedupe-by-identifier::%s" % arg, ctx.loc(hq, c), "merged records are de-duplicated by %s, which two merged records of different kinds share" % arg,
+                     "entity x2 + agent x2 under one identifier: the agent's merged record is never emitted")
+    res.ob("%s emits through %d append site(s)" % (short(hq), len(emit)))
+    return res
+
+
+@rule("C08", "C08.R5", "unified() leaves its source unchanged and returns a new container", 2,
+      decides="instance of C13.R1 / C12.R3 for the two unified() methods")
+def c08_r5(ctx: Ctx, rule):
+    res = RuleResult()
+    eff = get_effects(ctx)
+    for q in (DOC + ".unified", BUNDLE + ".unified"):
+        s = eff.sum[q]
+        bad = [e for e in s.effects if base_of(e[0]) == "self" and e[1] not in ALLOWED]
+        res.ob("%s: effects on self: %s; returns fresh: %s" % (short(q), sorted({(e[0], e[1]) for e in bad}) or "none (beyond empty-insert/memo)", not s.ret_roots))
+        for e in bad:
+            fq, node = s.sites[e]
+            res.fail(rule.id, "unified-writes-source::%s::%s::%s" % (q, e[1], e[0].replace(HOP, ">")), ctx.loc(fq, node),
+                     "%s has a %s effect on its source: %s" % (short(q), e[1], " -> ".join(eff.explain(q, e))), "content or declarations of d differ before and after d.unified()")
+        if s.ret_roots:
+            res.fail(rule.id, "unified-returns-alias::%s" % q, ctx.loc(q, ctx.fn(q).node), "%s may return (part of) its source: %s" % (short(q), sorted(s.ret_roots)))
+    return res
+
+
+# ===================================================================================== C09
+def loops_adding_records(ctx: Ctx, q):
+    fi = ctx.fn(q)
+    out = []
+    for n in walk_function(fi.node):
+        if isinstance(n, ast.For) and isinstance(n.target, ast.Name):
+            adds = [c for c in ast.walk(n) if isinstance(c, ast.Call) and call_name(c) in ("add_record", "update") and c.args and norm(c.args[0]) == n.target.id]
+            if adds:
+                out.append((n, adds))
+    return out
+
+
+@rule("C09", "C09.R1", "conservation loops: every record (bundle) of the source reaches add_record (update) on every iteration, from an unfiltered source", 5, family="F-PATH",
+      decides="flattened / update / construction from records never drop or skip a record")
+def c09_r1(ctx: Ctx, rule):
+    res = RuleResult()
+    targets = [DOC + ".flattened", BUNDLE + ".update", DOC + ".update", BUNDLE + ".__init__", DOC + ".unified", GR + ".graph_to_prov"]
+    for q in targets:
+        fi = ctx.fn(q)
+        g = get_cfg(ctx, q)
+        for loop, adds in loops_adding_records(ctx, q):
+            ln = g.nodes_of(loop)[0]
+            add_nodes = {node_of(g, a).id for a in adds}
+            body_entry = [m for m, lab in ln.succ if lab == "iter"][0]
+            # some path through the body (back to the header, or out of the loop) that passes no add call?
+            skip = None
+            if body_entry.id not in add_nodes:
+                for tgt in [ln] + [m for m, lab in ln.succ if lab == "done"]:
+                    p = g.find_path(body_entry, tgt, avoid=lambda n: n.id in add_nodes, labels_excluded=("exc", "raise", "done"))
+                    if p is not None and tgt is ln:
+                        skip = p
+                # break edges
+                for n in g.nodes:
+                    if isinstance(n.stmt, ast.Break) and any(x is n.stmt for x in ast.walk(loop)):
+                        skip = skip or [(n, "break")]
+            it = resolve_local(fi.node, loop.iter)
+            src = norm(it)
+            filtered = any(isinstance(x, (ast.ListComp, ast.GeneratorExp)) and any(g2.ifs for g2 in x.generators) for x in ast.walk(it)) or any(
+                isinstance(x, ast.Call) and (call_name(x) == "filter" or (call_name(x) == "get_records" and (x.args or x.keywords)) or call_name(x) in ("set", "frozenset", "unique", "dict")) for x in ast.walk(it))
+            whole_graph = q != GR + ".graph_to_prov"
+            res.ob("%s: for %s in %s: %s(%s) on every iteration: %s; source unfiltered: %s" % (short(q) if q.count(".") > 2 else q, loop.target.id, src[:60], call_name(adds[0]), loop.target.id, skip is None, not filtered))
+            if whole_graph and skip is not None:
+                res.fail(rule.id, "record-skipped::%s::%s" % (q, loop.target.id), ctx.loc(q, loop),
+                         "%s can finish an iteration over %s without adding %s: %s" % (short(q), src[:50], loop.target.id, " -> ".join(repr(n) for n, _ in skip[:6])),
+                         "a record that looks like a duplicate (or fails the added test) is silently dropped from the result")
+            if whole_graph and filtered:
+                res.fail(rule.id, "source-filtered::%s::%s" % (q, loop.target.id), ctx.loc(q, loop), "%s iterates a filtered / de-duplicated view of the source: %s" % (short(q), src[:80]),
+                         "repeated identical records collapse; the multiset of records is not conserved")
+    # flattened covers the document's own records and every bundle's records
+    q = DOC + ".flattened"
+    fi = ctx.fn(q)
+    rl, ix, ft = bundle_slots(ctx)
+    for loop, adds in loops_adding_records(ctx, q):
+        txt = norm(loop.iter) + " " + " ".join(norm(resolve_local(fi.node, x)) for x in ast.walk(loop.iter) if isinstance(x, ast.Name))
+        own = rl in txt or "self.records" in txt or "self.get_records" in txt
+        bundles = "_bundles" in txt or "self.bundles" in txt
+        res.ob("flattened walks the document's own records (%s) and its bundles' records (%s)" % (own, bundles))
+        if not (own and bundles):
+            res.fail(rule.id, "flattened-source-incomplete", ctx.loc(q, loop), "flattened() does not walk both the document's own records and all bundles' records", "top-level or bundled records are missing from the flattened document")
+    return res
+
+
+@rule("C09", "C09.R2", "add_record forwards type, identifier, formal and extra attributes; new_record passes both attribute groups to the record", 6, family="F-FWD",
+      decides="a re-created record carries everything the original carried")
+def c09_r2(ctx: Ctx, rule):
+    res = RuleResult()
+    q = BUNDLE + ".add_record"
+    fi = ctx.fn(q)
+    rec = fi.params[1]
+    calls = [c for c in calls_in(fi.node) if call_name(c) == "new_record"]
+    if len(calls) != 1:
+        raise AnalysisError("add_record: expected one call to new_record")
+    c = calls[0]
+    args = [norm(a) for a in c.args] + [norm(k.value) for k in c.keywords]
+    need = {"type": lambda a: a in ("%s.get_type()" % rec, "%s._prov_type" % rec),
+            "identifier": lambda a: a in ("%s.identifier" % rec, "%s._identifier" % rec),
+            "formal attributes": lambda a: a in ("%s.formal_attributes" % rec, "%s.attributes" % rec),
+            "extra attributes": lambda a: a in ("%s.extra_attributes" % rec, "%s.attributes" % rec)}
+    for what, pred in need.items():
+        ok = any(pred(a) for a in args)
+        res.ob("add_record forwards the record's %s: %s" % (what, ok))
+        if not ok:
+            res.fail(rule.id, "add_record-drops::%s" % what.replace(" ", "-"), ctx.loc(q, c), "add_record does not pass the record's %s to new_record (%s)" % (what, args),
+                     "records lose their %s when copied into another container by update/flattened/add_bundle" % what)
+    nq = BUNDLE + ".new_record"
+    nf = ctx.fn(nq)
+    ctor = [c2 for c2 in calls_in(nf.node) if isinstance(c2.func, ast.Subscript)]
+    if len(ctor) != 1 or len(ctor[0].args) < 3:
+        raise AnalysisError("new_record: constructor call not found")
+    lst = norm(ctor[0].args[2])
+    feeds = {}
+    for n in walk_function(nf.node):
+        if isinstance(n, ast.Call) and call_name(n) in ("extend", "append") and norm(n.func.value) == lst:
+            for p in nf.params[3:5]:
+                if any(isinstance(x, ast.Name) and x.id == p for x in ast.walk(n)):
+                    feeds[p] = True
+    for p in nf.params[3:5]:
+        res.ob("new_record passes `%s` into the record's attribute list: %s" % (p, feeds.get(p, False)))
+        if not feeds.get(p):
+            res.fail(rule.id, "new_record-drops::%s" % p, ctx.loc(nq, ctor[0]), "new_record never adds `%s` to the list handed to the record constructor" % p, "factory calls lose their %s" % p)
+    return res
+
+
+def self_mutating_calls(ctx: Ctx, q):
+    """Statements of q with a CONTENT/NS/LINK effect rooted at self (direct or through a callee)."""
+    eff = get_effects(ctx)
+    s = eff.sum[q]
+    out = []
+    for e, (fq, node) in s.sites.items():
+        if fq == q and base_of(e[0]) == "self" and e[1] in ("CONTENT", "NS", "LINK", "NS-RESOLVE", "OTHER"):
+            out.append((e, node))
+    return out
+
+
+@rule("C09", "C09.R3", "validate before commit: no effect on the receiver lies on a path to a refusal", 4, family="F-PATH",
+      decides="add_bundle / update refuse a bad argument without having changed the document")
+def c09_r3(ctx: Ctx, rule):
+    res = RuleResult()
+    for q in (DOC + ".add_bundle", BUNDLE + ".update", DOC + ".update"):
+        fi = ctx.fn(q)
+        g = get_cfg(ctx, q)
+        raises = [n for n in g.nodes if isinstance(n.stmt, ast.Raise)]
+        muts = self_mutating_calls(ctx, q)
+        # only CONTENT/NS/LINK: resolving a name (NS-RESOLVE) before refusing is an observation (see DESIGN 7b)
+        hard = [(e, node) for e, node in muts if e[1] in ("CONTENT", "NS", "LINK", "OTHER")]
+        for r in raises:
+            witness = None
+            for e, node in hard:
+                for mn in g.node_containing(node):
+                    if mn is r or g.exists_path(mn, r, labels_excluded=("exc",)):
+                        witness = (e, node)
+            res.ob("%s: `%s` is reached with the receiver untouched: %s" % (short(q), norm(r.stmt)[:60], witness is None))
+            if witness:
+                e, node = witness
+                res.fail(rule.id, "commit-before-refusal::%s::%s" % (q, norm(r.stmt)[:50]), ctx.loc(q, node),
+                         "%s performs `%s` (%s on self) on a path that then raises `%s`" % (short(q), norm(node)[:60], e[1], norm(r.stmt)[:50]),
+                         "a refused add_bundle/update leaves the bundle registered / records half added")
+    return res
+
+
+@rule("C09", "C09.R4", "the argument is not modified: no content effect rooted at `other` in update / flattened; add_bundle(ProvBundle) attaches by reference by design", 3,
+      decides="d.update(other) leaves other unchanged")
+def c09_r4(ctx: Ctx, rule):
+    res = RuleResult()
+    eff = get_effects(ctx)
+    for q in (BUNDLE + ".update", DOC + ".update"):
+        fi = ctx.fn(q)
+        par = fi.params[1]
+        s = eff.sum[q]
+        bad = [e for e in s.effects if base_of(e[0]) == par and e[1] not in ALLOWED]
+        res.ob("%s: effects on `%s`: %s" % (short(q), par, sorted({(e[0], e[1]) for e in bad}) or "none (beyond empty-insert/memo)"))
+        for e in bad:
+            fq, node = s.sites[e]
+            res.fail(rule.id, "argument-modified::%s::%s::%s" % (q, e[1], e[0].replace(HOP, ">")), ctx.loc(fq, node),
+                     "%s has a %s effect on its argument (%s): %s" % (short(q), e[1], e[2], " -> ".join(eff.explain(q, e))),
+                     "after d.update(other), other's bundles are re-parented / its records or declarations changed")
+        kept = {k: v for k, v in s.retains.items() if base_of(k) == par}
+        res.ob("%s keeps nothing of `%s` by reference: %s" % (short(q), par, not kept))
+        for k, how in kept.items():
+            res.fail(rule.id, "argument-retained::%s::%s" % (q, k.replace(HOP, ">")), ctx.loc(q, fi.node), "%s keeps part of `%s` by reference: %s" % (short(q), par, how),
+                     "a bundle object ends up owned by both documents")
+    res.exceptions.append("ProvDocument.add_bundle(ProvBundle): attaches the bundle object itself (documented design); its effects on the argument are LINK/NS(parent)")
+    q = DOC + ".add_bundle"
+    s = eff.sum[q]
+    par = ctx.fn(q).params[1]
+    bad = [e for e in s.effects if base_of(e[0]) == par and e[1] in ("CONTENT",)]
+    res.ob("add_bundle: CONTENT effects on the attached bundle: %s" % (sorted({e[2] for e in bad}) or "none"))
+    for e in bad:
+        fq, node = s.sites[e]
+        res.fail(rule.id, "argument-modified::%s::CONTENT" % q, ctx.loc(fq, node), "add_bundle changes the records of the bundle it attaches: %s" % e[2])
+    return res
+
+
+@rule("C09", "C09.R5", "flattened() never adds a bundle to its result", 1, decides="the flattened document is bundle-free")
+def c09_r5(ctx: Ctx, rule):
+    res = RuleResult()
+    eff = get_effects(ctx)
+    q = DOC + ".flattened"
+    closure_calls = {call_name(c) for c in calls_in(ctx.fn(q).node)}
+    bad = closure_calls & {"add_bundle", "bundle"}
+    res.ob("flattened calls bundle-creating methods: %s" % (sorted(bad) or "none"))
+    if bad:
+        res.fail(rule.id, "flattened-adds-bundle", ctx.loc(q, ctx.fn(q).node), "flattened() calls %s" % sorted(bad), "the flattened document still has bundles")
+    return res
+
+
+# shared instances: the alias rule is a necessary condition of C08 (the merge must not write through to the source
+# records) and of C13 (unified()/dot/graph must not change the source) as well
+RULES.setdefault("C08", []).append(Rule("C08.R3", "records never share per-attribute value sets (instance of C12.R1)", 10, c12_r1, "F-OWN",
+                                        "merging into a copy cannot write through to the original record"))
+RULES.setdefault("C13", []).append(Rule("C13.R5", "records never share per-attribute value sets (instance of C12.R1)", 10, c12_r1, "F-OWN",
+                                        "unified(), and the exporters built on it, cannot write through a copied record into the source"))
